@@ -844,59 +844,70 @@ impl Database {
     /// ```
     ///
     pub fn set_value(&self, change: &Change) -> Response {
-        if let Some(old_version) = self.get_value(change.key.clone()) {
-            let new_version = change.next_version(&old_version);
-            if new_version <= old_version.version && !change.allow_save_version() {
-                let state = old_version.get_update_value_sate();
+        // The version check and the write happen under one write lock: two writers that passed the
+        // check against the same old version would otherwise both be accepted
+        #[cfg(feature = "verif_hooks")]
+        crate::verif::yield_point("set_value:map:write");
+        let new_version = {
+            let mut db = self.map.write().unwrap();
+            if let Some(old_version) = db.get(&change.key).cloned() {
+                let new_version = change.next_version(&old_version);
+                if new_version <= old_version.version && !change.allow_save_version() {
+                    let state = old_version.get_update_value_sate();
+                    log::debug!(
+                        "Version conflicted will try to resolve: {}, New version: {}, PassedVersion : {}",
+                        old_version.version,
+                        new_version,
+                        change.version,
+                    );
+                    return Response::VersionError {
+                        msg: String::from(INVALID_VERSION_ERROR),
+                        old_version: old_version.version,
+                        key: change.key.clone(),
+                        version: change.version,
+                        old_value: old_version.clone(),
+                        change: change.clone(),
+                        state: state,
+                        db: self.name.clone(),
+                    };
+                }
                 log::debug!(
-                    "Version conflicted will try to resolve: {}, New version: {}, PassedVersion : {}",
+                    "Updating existing value Old version: {}, New version: {}, PassedVersion : {}",
                     old_version.version,
                     new_version,
                     change.version,
                 );
-                return Response::VersionError {
-                    msg: String::from(INVALID_VERSION_ERROR),
-                    old_version: old_version.version,
-                    key: change.key.clone(),
-                    version: change.version,
-                    old_value: old_version.clone(),
-                    change: change.clone(),
-                    state: state,
-                    db: self.name.clone(),
-                };
+                let state = old_version.get_update_value_sate();
+                db.insert(
+                    change.key.clone(),
+                    Value {
+                        value: change.value.clone(),
+                        version: new_version,
+                        state,
+                        value_disk_addr: old_version.value_disk_addr,
+                        key_disk_addr: old_version.key_disk_addr,
+                        opp_id: change.opp_id,
+                    },
+                );
+                new_version
+            } else {
+                let new_version = change.version.saturating_add(1);
+                //new key, not in disk yet
+                db.insert(
+                    change.key.clone(),
+                    Value {
+                        value: change.value.clone(),
+                        version: new_version,
+                        state: ValueStatus::New,
+                        value_disk_addr: 0,
+                        key_disk_addr: 0,
+                        opp_id: change.opp_id,
+                    },
+                );
+                new_version
             }
-            log::debug!(
-                "Updating existing value Old version: {}, New version: {}, PassedVersion : {}",
-                old_version.version,
-                new_version,
-                change.version,
-            );
-            let state = old_version.get_update_value_sate();
-            self.set_value_version(
-                &change.key,
-                &change.value,
-                new_version,
-                state,
-                old_version.value_disk_addr,
-                old_version.key_disk_addr,
-                change.opp_id,
-            );
-            self.notify_watchers(change.key.clone(), change.value.clone(), new_version);
-        } else {
-            let new_version = change.version.saturating_add(1);
-            //new key
-            self.set_value_version(
-                &change.key,
-                &change.value,
-                new_version,
-                ValueStatus::New,
-                0,
-                0,
-                change.opp_id,
-            );
-            // not in disk yet
-            self.notify_watchers(change.key.clone(), change.value.clone(), new_version);
-        }
+        }; // release the db
+        self.notify_watchers(change.key.clone(), change.value.clone(), new_version);
 
         Response::Set {
             key: change.key.clone(),
